@@ -389,8 +389,9 @@ class ComposedNode(ConfigNode):
         for child in self._children.values():
             fix = False
             if self._delete is None:
-                if child._implicit_delete != self._implicit_delete:
-                    child._implicit_delete = self._implicit_delete
+                implicit_delete = self._default_delete or self._implicit_delete # the same value "_get_child_kwargs" passes to new children
+                if child._implicit_delete != implicit_delete:
+                    child._implicit_delete = implicit_delete
                     fix = True
             if self._allow_new is None:
                 if child._implicit_allow_new != self._implicit_allow_new:
